@@ -183,4 +183,7 @@ def replay(ctx: Ctx, doc: dict) -> int:
         why, ans = oracle_call(E, members, n)
         print(n, ans, why or "")
         bad |= bool(why)
-    return 1 if bad else 0
+    if not bad:
+        # nothing on this enum alone: the recorded failure may depend on what other enum types did before (shared state)
+        return common.replay_full_rerun(ctx, run)
+    return 1
